@@ -126,6 +126,33 @@ def run(chk: common.Check, tier: str):
                                   {"grammar": g, "rewrite": dict(rewrites)[g], "input": src, "left_recursive": accepted,
                                    "rewrite_accepts": acc2}, True)
         chk.sample({"grammar": g}, 3)
+    # ---- the tie of C02_A_Ax_b_returns_the_left_nested_tree_of_b_xstar to the code: the method of the theorem is the method a
+    # the generator model emits for FAMILY[0] (with the model's own analysis), and that module is the real generator's output
+    import genmodel as gm
+    import grammar2coq as g2c
+    from checks.c13 import tokens_set
+    c, _res = gm.case(g2c.read_grammar(FAMILY[0][0]))
+    pre = gm.prelude(tokens_set()) + """From Pegen Require Import Runtime.Exec Proofs.GrowAxb.
+Definition only (m : ir_module) (x : meth) : ir_module :=
+  {| i_header := i_header m; i_subheader := i_subheader m; i_class := i_class m; i_keywords := i_keywords m;
+     i_soft_keywords := i_soft_keywords m; i_trailer := i_trailer m; i_meths := [x] |}.
+Definition axb_case_ok (c : grammar * N * egen) : bool :=
+  let '(g, fresh, e) := c in
+  gen_ok g fresh e &&
+  match run_gen g fresh with
+  | inl m => match find_meth m "a" with
+             | Some ma => String.eqb (render (only m ma)) (render (only m axb_meth))
+             | None => false
+             end
+  | inr _ => false
+  end.
+"""
+    bad = common.run_cases(chk, "axb", pre, gm.CASE_T, [c] if c else [], "axb_case_ok", shard=1, timeout=600)
+    if bad is not None:
+        chk.oblige("instance of C02_A_Ax_b_returns_the_left_nested_tree_of_b_xstar: the method axb_meth of the theorem renders to the "
+                   "same text as the method a of the generator model's output for  start: a NEWLINE ; a: a 'x' | 'b'  (model analysis "
+                   "included), and that output equals the real generator's character by character (K-gen)",
+                   bool(c) and not bad, json.dumps(bad))
 
 
 def replay(path: str) -> int:
